@@ -7,7 +7,10 @@ PID = 'C06'
 ROUTINES = ['randmio_und_signed', 'randmio_dir_signed', 'null_model_und_sign', 'null_model_dir_sign']
 UND = {'randmio_und_signed', 'null_model_und_sign'}
 NULL = {'null_model_und_sign', 'null_model_dir_sign'}
-FREQS = {0: '0/1', .1: '1/10', .5: '1/2', 1: '1/1'}
+# wei_freq grid: exact rationals for the model; includes non-integer 1/wei_freq (.3, .7) and the half-way cases
+# 1/.4 = 2.5 and 1/(2/3) = 1.5 (np.round rounds half to even)
+FREQS = {0: '0/1', .1: '1/10', .2: '1/5', .25: '1/4', .3: '3/10', .4: '2/5', .5: '1/2', 2 / 3: '2/3', .7: '7/10', 1: '1/1'}
+FREQ_GRID = sorted(FREQS)
 
 
 class NPProxy(object):
@@ -64,6 +67,7 @@ def run_case(case):
         X = np.asarray(X, dtype=float); res['eff'] = int(eff)
         Win = W
     res['X'] = X.tolist()
+    res['integral'] = bool(np.all(X == np.round(X)))     # mat_str truncates: never compare a non-integer output as if it were one
     if case.get('malformed'):
         return res
     # ---- independent predicates of the property on the real output
@@ -114,6 +118,8 @@ def compare(case, res, out):
     if res['status'] == 'exc':
         return None if out == 'error=' + exc_kind(res['exc']) else 'impl raised %s' % res['exc']
     d = kv(out)
+    if not res.get('integral', True):
+        return 'impl returned non-integer entries for integer input'
     if case['routine'] in NULL:
         if d.get('W0') != mat_str(np.array(res['X'])) or d.get('left') != '0' or d.get('oleft') != '0':
             return 'matrix / draws consumed differ'
@@ -140,41 +146,105 @@ def signed_graph(rs, n, dens, negfrac, und, wmax=9):
     return A
 
 
+def ternary_family(n, und):
+    """every matrix with entries in {-1, 0, 1} (empty diagonal, symmetric if und) having a positive and a negative cell"""
+    cells = [(i, j) for i in range(n) for j in range(n) if (i < j if und else i != j)]
+    for vals in itertools.product((-1, 0, 1), repeat=len(cells)):
+        if 1 not in vals or -1 not in vals:
+            continue
+        A = np.zeros((n, n))
+        for (i, j), v in zip(cells, vals):
+            A[i, j] = v
+            if und:
+                A[j, i] = v
+        yield A
+
+
+def circulant(rs, n, und):
+    """regular sign pattern: every node has the same +/- degrees and strengths (maximal ties in the strength products)"""
+    A = np.zeros((n, n)); w = float(rs.randint(1, 10))
+    offs = list(range(1, (n - 1) // 2 + 1)) if und else list(range(1, n))
+    for d in offs:
+        sgn = rs.choice([-1, 0, 1], p=[.4, .2, .4])
+        for i in range(n):
+            A[i, (i + d) % n] = sgn * w
+            if und:
+                A[(i + d) % n, i] = sgn * w
+    return A
+
+
+def null_cfg(rs, c, big_itr=True):
+    c['itr'] = int(rs.choice([0, 1, 2, 5] if big_itr else [0, 1])); c['freq'] = FREQ_GRID[int(rs.randint(len(FREQ_GRID)))]
+    return c
+
+
 def gen_cases(rs, tier):
     big = tier == 'thorough'
     cases = []
-    per = 40 if not big else 400
+    per = 30 if not big else 300
     for r in ROUTINES:
         und = r in UND
-        for n in range(4, 10 if not big else 13):
-            for _ in range(per):
+
+        def add(W, **kw):
+            c = {'routine': r, 'W': W.tolist(), 'seed': int(rs.randint(2 ** 31))}
+            c.update(kw)
+            if r in NULL:
+                null_cfg(rs, c, big_itr=len(W) <= 9)
+            else:
+                c.setdefault('itr', int(rs.choice([0, 1, 1, 2, 3])) if len(W) <= 9 else 1)
+            c.update({k: v for k, v in kw.items() if k in ('itr', 'freq')})
+            cases.append(c)
+            return c
+
+        # exhaustive small family: all ternary 4-node matrices (undirected: all 3^6; directed: a random slice of 3^12)
+        if und:
+            fam = list(ternary_family(4, True))
+            if not big and r in NULL:
+                fam = [fam[i] for i in rs.choice(len(fam), 250, replace=False)]
+            for W in fam:
+                add(W, family='ternary4')
+        else:
+            for _ in range(250 if not big else 3000):
+                W = rs.randint(-1, 2, size=(4, 4)).astype(float); np.fill_diagonal(W, 0)
+                if (W > 0).any() and (W < 0).any():
+                    add(W, family='ternary4')
+        # random integer-weight networks
+        for n in range(4, 13):
+            for _ in range(per if n <= 9 else max(3, per // 8)):
                 dens = float(rs.choice([.3, .5, .8, 1.0])); neg = float(rs.choice([.2, .5, .8]))
                 W = signed_graph(rs, n, dens, neg, und, wmax=int(rs.choice([1, 9, 9])))
                 if not ((W > 0).any() and (W < 0).any()):
                     continue
-                c = {'routine': r, 'W': W.tolist(), 'seed': int(rs.randint(2 ** 31))}
-                if r in NULL:
-                    c['itr'] = int(rs.choice([0, 1, 5])); c['freq'] = [0, .1, .5, 1][int(rs.randint(4))]
-                    if rs.rand() < .15:   # non-empty input diagonal: the routine must clear it
-                        Wd = np.array(c['W']); Wd[np.diag_indices(n)] = rs.randint(-3, 4, size=n); c['W'] = Wd.tolist()
-                else:
-                    c['itr'] = int(rs.choice([0, 1, 1, 2, 3]))
-                cases.append(c)
-        # edge of the domain: every off-diagonal cell positive (binary stage skipped), only negative cells
-        for n in (4, 6):
-            W = np.abs(signed_graph(rs, n, 1.0, 0, und)) + (0 if not und else 0)
+                c = add(W)
+                if r in NULL and rs.rand() < .15:   # non-empty input diagonal: the routine must clear it
+                    Wd = np.array(c['W']); Wd[np.diag_indices(n)] = rs.randint(-3, 4, size=n); c['W'] = Wd.tolist()
+        # regular patterns: all strengths equal -> every strength product ties
+        for n in (5, 6, 8, 9):
+            for _ in range(3 if not big else 12):
+                W = circulant(rs, n, und)
+                if (W > 0).any() and (W < 0).any():
+                    add(W, family='circulant')
+        # edge of the domain: every off-diagonal cell positive (binary stage skipped: Ap_r = Ap), only negative cells
+        for n in (4, 5, 7, 9, 12):
+            W = np.abs(signed_graph(rs, n, 1.0, 0, und))
             W[W == 0] = 1; np.fill_diagonal(W, 0)
             if und:
                 W = np.triu(W, 1); W = W + W.T
-            cases.append({'routine': r, 'W': W.tolist(), 'seed': int(rs.randint(2 ** 31)), 'itr': 1, 'freq': .5, 'edge': 'all-positive'})
-            cases.append({'routine': r, 'W': (-W).tolist(), 'seed': int(rs.randint(2 ** 31)), 'itr': 1, 'freq': 1, 'edge': 'all-negative'})
+            for fq in (.5, 1, 0, .3):
+                add(W, itr=1, freq=fq, edge='all-positive')
+            add(-W, itr=1, freq=1, edge='all-negative')
+            # dense: all cells non-zero, a single negative connection -> the binary stage runs on an (almost) full positive support
+            W1 = W.copy(); W1[0, 1] = -W1[0, 1]
+            if und:
+                W1[1, 0] = W1[0, 1]
+            add(W1, edge='full-one-negative')
         # malformed stream: asymmetric input to the undirected routines (documented rejection / no claim)
         if und:
             for _ in range(6):
                 n = int(rs.randint(4, 8)); W = signed_graph(rs, n, .7, .5, False)
                 if np.array_equal(W, W.T):
                     continue
-                cases.append({'routine': r, 'W': W.tolist(), 'seed': int(rs.randint(2 ** 31)), 'itr': 1, 'freq': .5, 'malformed': 'asymmetric'})
+                add(W, itr=1, freq=.5, malformed='asymmetric')
     return cases
 
 
@@ -184,9 +254,12 @@ PREDS = {'pos-out-degree', 'neg-out-degree', 'pos-in-degree', 'neg-in-degree', '
 
 def main():
     ck = Check(PID)
-    ck.cov['rule'] = ('cases = (routine, W, itr/bin_swaps, wei_freq, seed): random signed integer-weight networks (weights +-1..9 or +-1), n=4..9(12), '
-                      'densities .3-1, negative fraction .2-.8, symmetric for the _und routines, bin_swaps in {0,1,5}, wei_freq in {0,.1,.5,1}, '
-                      'plus all-positive / all-negative edge cases and an asymmetric malformed stream; non-trivial = distinct case whose output differs from the input')
+    ck.cov['rule'] = ('cases = (routine, W, itr/bin_swaps, wei_freq, seed): every 4-node matrix with entries in {-1,0,1} having a + and a - cell (all 3^6 '
+                      'symmetric ones; a random slice of the directed ones), random signed integer-weight networks (weights +-1..9 or +-1) n=4..12, '
+                      'densities .3-1, negative fraction .2-.8, symmetric for the _und routines, regular circulant sign patterns (all strength products tie), '
+                      'bin_swaps in {0,1,2,5}, wei_freq in {0,.1,.2,.25,.3,.4,.5,2/3,.7,1} (1/wei_freq non-integer and exactly half-way included), '
+                      'all-positive (binary stage skipped) / all-negative / full-with-one-negative edge cases and an asymmetric malformed stream; '
+                      'non-trivial = distinct case whose output differs from the input')
     ck.assumptions += ['inputs are integer-valued float matrices (exact arithmetic in the dealing stage, exact comparison of outputs)',
                        'np.argsort results inside the null models are taken from the real run as an oracle (recorded through a proxy of the module global np, /repo unedited); '
                        'the model checks each is a permutation, which is all the theorems use',
@@ -209,7 +282,10 @@ def main():
         rt = c['routine']
         ck.count('routine:' + rt); ck.count('status:' + r['status']); ck.count('n=%d' % len(c['W']))
         if rt in NULL:
-            ck.count('wei_freq=%s' % c['freq']); ck.count('bin_swaps=%d' % c['itr'])
+            ck.count('wei_freq=%.3g' % c['freq']); ck.count('bin_swaps=%d' % c['itr'])
+        for tag in ('family', 'edge'):
+            if c.get(tag):
+                ck.count('%s:%s' % (tag, c[tag]))
         moved = r['status'] == 'ok' and r.get('X') != c['W']
         ck.case(sample={'routine': rt, 'W': c['W'], 'itr': c['itr'], 'freq': c.get('freq'), 'seed': c['seed'], 'eff': r.get('eff'), 'draws': len(r['draws'])} if moved else None,
                 nontrivial_key=digest([rt, c['W'], c['itr'], c.get('freq'), r['draws']]) if moved else None)
@@ -228,6 +304,12 @@ def main():
                 if pred in PREDS:
                     ck.violation(rt, pred, {'case': c, 'output': r.get('X'), 'r': r.get('r'), 'info': info}, cond)
         lines.append(lean_line(c, r)); idx.append(n_)
+    # a routine that hangs or raises on (almost) every input must not pass silently
+    for rt in ROUTINES:
+        rr = [r for c, r in zip(cases, results) if c['routine'] == rt and not c.get('malformed')]
+        nto = sum(r['status'] == 'timeout' for r in rr); nok = sum(r['status'] == 'ok' for r in rr)
+        if rr and not ck.replay and (nto > 0.05 * len(rr) or nok == 0):
+            ck.violation(rt, 'hangs-or-never-returns', {'cases': len(rr), 'timeouts': nto, 'normal_returns': nok}, {'routine': rt})
     if ok:
         try:
             outs = run_driver('Signed', lines)
